@@ -128,23 +128,40 @@ def run(ctx, obl):
                     {"k": "f", "name": "hr" + cid, "type": "string", "new": False, "def": None, "tagskip": False}]})
         hnames = [h["name"] for h in homonyms]
         args = ["new", "-getset", "-type=" + ",".join(hnames + cnames + shoots + cafter + [s["name"]])]
-        files = newgen.case_files("cs", homonyms + cdecls + [s], cid)
+        # the ALL-IN-ONE selection modes (-file=t.go, -type=* with its go:generate line) generate every struct of the file in
+        # declaration order: used where that is the same set of types (every local embedded struct is a shoot type without
+        # local embeds of its own), with each embedded type declared before its embedder -- the order the overlay reload
+        # relies on; half of the embedded names (inner, node) sort AFTER "T"
+        local = [m for m in s["members"] if m["k"] == "e" and m.get("pkg") != "sub"]
+        mode = "list"
+        if (not homonyms and not cnames and not cafter and not s["tparams"] and ctx.rng.random() < 0.35
+                and all(m.get("shoot") and not any(mm["k"] == "e" and mm.get("pkg") != "sub" for mm in m["decl"]["members"]) for m in local)):
+            mode = ctx.rng.choice(["file", "file", "star"])
+            args = ["new", "-getset", "-file=t.go" if mode == "file" else "-type=*"]
+        res.hist("selection_mode", mode + ("+embedded-shoot-type" if local and mode != "list" else ""))
+        files = newgen.case_files("cs", homonyms + cdecls + [s], cid, deps_first=mode != "list")
+        if mode == "star":
+            files["t.go"] = files["t.go"].replace("package cs\n", "package cs\n\n//go:generate shoot " + " ".join(args) + "\n", 1)
         runs = [{"args": args}] * (2 if ctx.rng.random() < 0.12 else 1)
         # history with a SOURCE EDIT (15% of the cases with an embedded shoot type that carries a type-level directive): the first
         # run sees the embedded type WITHOUT the directive, then the directive is added by hand and the same command runs again
         # over the package that holds the first output; the expectation is that of the edited sources
         edited = [m for m in s["members"] if m["k"] == "e" and m.get("shoot") and m["decl"].get("typedoc")]
-        if edited and not homonyms and ctx.rng.random() < 0.3:
+        # (list mode only: in the all-in-one modes the stale output of the first run breaks the second one -- that defect is
+        # the recorded finding F_newStaleAllInOne of C01, found by its raw history leg)
+        if edited and not homonyms and mode == "list" and ctx.rng.random() < 0.3:
             import copy
             s0 = copy.deepcopy(s)
             for m in s0["members"]:
                 if m["k"] == "e" and m.get("shoot"):
                     m["decl"]["typedoc"] = None
-            files0 = newgen.case_files("cs", cdecls + [s0], cid)
+            files0 = newgen.case_files("cs", cdecls + [s0], cid, deps_first=mode != "list")
+            if mode == "star":
+                files0["t.go"] = files0["t.go"].replace("package cs\n", "package cs\n\n//go:generate shoot " + " ".join(args) + "\n", 1)
             runs = [{"args": args}, {"write": {"t.go": files["t.go"]}}, {"args": args}]
             files = dict(files, **{"t.go": files0["t.go"]})
             res.hist("history", "source-edit")
-        pc = {"id": cid, "files": files, "runs": runs, "oracle": {},
+        pc = {"id": cid, "files": files, "runs": runs, "oracle": {}, "mode": mode,
               "spec": s, "sexp": gs_sexp(cid, s, facts[i]), "cmd": " ; ".join("shoot " + " ".join(r["args"]) if "args" in r else "<edit t.go>" for r in runs),
               "key": dump([typedoc_sexp(s.get("typedoc")), newgen.members_sexp(s), sorted(facts[i])])}
         b.add(pc)
@@ -153,7 +170,8 @@ def run(ctx, obl):
     out1 = b.execute(build=False)
     for c in cases:
         r = out1[c["id"]]
-        src = "\n".join(v for k, v in sorted(r["written"].items()) if k.endswith(".%s.go" % c["spec"]["name"].lower()))
+        src = "\n".join(v for k, v in sorted(r["written"].items())
+                        if k.endswith(".%s.go" % c["spec"]["name"].lower()) or (c["mode"] != "list" and k.endswith("t.shootnew.go")))
         c["src"] = src
         getters, setters = own_methods(src, c["spec"]["name"])
         c["own"] = (getters, setters)
